@@ -35,10 +35,10 @@ using tbox::network::SockAddr;
 
 namespace {
 
-enum { CFG, CONS, SEND, ENABLE, DISABLE, CONNECT, PREAD, PAUTO, IDLE, PWRITE, PSHUT, DISC, THR, SHRINK, BUFSZ, CBSEND, PEEK, NOPS };
+enum { CFG, CONS, SEND, ENABLE, DISABLE, CONNECT, PREAD, PAUTO, IDLE, PWRITE, PSHUT, DISC, THR, SHRINK, BUFSZ, CBSEND, PEEK, WAITSC, NOPS };
 const std::vector<const char*> kOpNames = {"cfg", "cons", "send", "enable", "disable", "connect", "pread", "pauto", "idle", "pwrite",
-                                           "pshut", "disc", "thr", "shrink", "bufsz", "cbsend", "peek"};
-const std::vector<int> kOpArity = {8, 2, 3, 0, 1, 0, 2, 2, 1, 3, 2, 2, 2, 2, 3, 3, 2};
+                                           "pshut", "disc", "thr", "shrink", "bufsz", "cbsend", "peek", "waitsc"};
+const std::vector<int> kOpArity = {8, 2, 3, 0, 1, 0, 2, 2, 1, 3, 2, 2, 2, 2, 3, 3, 2, 2};
 
 // per-case caps (keep every case far below the watchdog)
 const uint64_t kBudgetOut = 3u << 20;       // bytes handed to send() per case (all connections)
@@ -140,6 +140,10 @@ struct Conn {
   uint64_t acc_at_last_sc = 0; int sc_calls = 0;
   bool sc_excused = false;           // disable() came between a send and its notification: the notification may be lost (left free)
   bool peer_eof = false;
+  int peer_rd_err = 0;               // errno of a failed read of the peer (ECONNRESET, ...)
+  // orderly local close: the tbox side disconnected when everything accepted had been reported written (send-complete)
+  // and nothing the peer wrote was unread; the peer then only reads, and must get every byte followed by EOF
+  bool orderly = false; uint64_t must_deliver = 0;
   // peer -> tbox
   uint64_t in_wrote = 0;             // bytes the kernel took from the peer
   uint64_t in_cons = 0;              // bytes the receive callback consumed
@@ -181,7 +185,7 @@ struct Engine {
   // shapes seen (classes / non-trivial rule)
   bool c_partial = false, c_eagain = false, c_before_enable = false, c_leftover_more = false, c_thr_held = false, c_sc = false,
        c_close_reported = false, c_close_pending_in = false, c_disc_in_cb = false, c_cb_send = false, c_disc = false, c_big = false,
-       c_err = false, c_cross = false;
+       c_err = false, c_cross = false, c_orderly = false, c_orderly_unread = false, c_orderly_unread_inet = false;
 
   Engine(const Scenario &sc, CaseInfo &ci, const char *subname) : s(sc), info(ci), sub(subname), loop(tbox::event::Loop::New()), rbuf(1u << 16) {
     if (!s.ops.empty() && s.ops[0].code == CFG) cfg = &s.ops[0];
@@ -225,12 +229,13 @@ struct Engine {
         ssize_t k = mismatch(c.osalt, c.out_got, rbuf.data(), (size_t)r);
         if (k >= 0) fail(tag(c) + "byte " + std::to_string(c.out_got + k) + " of the stream received by the peer is not the byte that was sent at that offset (" + std::to_string(c.out_acc) + " accepted so far; " + locate(c.osalt, rbuf.data() + k, (size_t)r - k, c.out_acc) + ")");
         c.out_got += (uint64_t)r; total += (size_t)r;
-      } else if (r == 0) { c.peer_eof = true; break; }
-      else break;
+      } else if (r == 0) { if (!c.peer_rd_err) c.peer_eof = true; break; }
+      else { if (errno != EAGAIN && errno != EINTR && !c.peer_eof && !c.peer_rd_err) { c.peer_rd_err = errno; progress = true; } break; }
     }
     return total;
   }
   void peer_flush(Conn &c) {
+    if (c.orderly) { c.peer_backlog = 0; return; }     // after an orderly local close the peer only reads (data sent to a closed TCP socket is answered with a reset)
     if (c.pwr < 0 || c.peer_backlog == 0 || c.peer_shut) return;
     size_t n = (size_t)std::min<uint64_t>(c.peer_backlog, kMaxOne);
     std::unique_ptr<uint8_t[]> d(new uint8_t[n]); fill(c.isalt, c.in_wrote, d.get(), n);
@@ -249,6 +254,18 @@ struct Engine {
     if (!c.peer_sock) { int sz = c.tfd >= 0 ? fcntl(c.tfd, F_GETPIPE_SZ) : 65536; size_t q = inq(c.prd); return (size_t)sz > q ? (size_t)sz - q : 0; }
     size_t cap = c.inet ? 65536 : sock_capacity(c.tbuf), q = (size_t)(c.out_acc - c.out_got);
     return cap > q ? cap - q : 0;
+  }
+
+  // called right before the tbox side closes a connection by itself (disconnect / stop / delete)
+  void note_local_close(Conn &c) {
+    if (!c.tbox_up || c.tbox_gone || c.bound || !c.can_write || c.err_seen || c.close_reports || c.peer_shut || c.peer_closed) return;
+    if (c.out_acc == 0 || c.acc_at_last_sc != c.out_acc || c.peer_backlog) return;   // nothing handed over / something may still be queued in user space: exempt
+    if (!c.running) return;
+    Buffer *rb = ep_rbuf(c);
+    if (c.can_read && (!rb || c.in_cons + rb->readableSize() != c.in_wrote)) return;   // unread inbound data: the kernel may reset the connection by itself
+    c.orderly = true; c.must_deliver = c.out_acc;
+    c_orderly = true;
+    if (c.out_got < c.out_acc) { c_orderly_unread = true; if (c.inet) c_orderly_unread_inet = true; }
   }
 
   // ---- callbacks of the code under test ----------------------------------------------------------
@@ -309,9 +326,18 @@ struct Engine {
     c.acc_at_last_sc = acc;
     if (c.prd >= 0 && !c.peer_closed && !c.tbox_gone && !c.bound) {
       bool drain = sc_mode == 0;
-      if (c.inet) {            // loopback TCP: what was written is not instantly readable by the peer; wait for it (bounded, real time)
+      if (c.inet && (drain || c.tfd < 0)) {            // loopback TCP: what was written is not instantly readable by the peer; wait for it (bounded, real time)
         drain = true;
         for (int i = 0; i < 200 && c.out_got + inq(c.prd) < acc; ++i) { peer_read(c, SIZE_MAX); struct pollfd pf = {c.prd, POLLIN, 0}; ::poll(&pf, 1, 5); }
+      } else if (c.inet) {
+        // without touching the peer: read by the peer + waiting in its receive queue <= accepted <= that + the tbox socket's send queue
+        // (TIOCOUTQ counts unacknowledged bytes, which may already sit in the peer's queue, so only the bounds are exact)
+        int outq = 0; if (ioctl(c.tfd, TIOCOUTQ, &outq) != 0 || outq < 0) outq = 0;
+        uint64_t lo = c.out_got + inq(c.prd);
+        if (lo > acc || lo + (uint64_t)outq < acc)
+          fail(tag(c) + "send-complete notification " + std::to_string(c.sc_calls) + " fired when " + std::to_string(acc) + " bytes had been accepted by send(), but the peer read " + std::to_string(c.out_got) + ", " + std::to_string(lo - c.out_got) + " wait in its receive queue and " + std::to_string(outq) + " in the connection's send queue");
+        run_acts(c, 2);
+        return;
       }
       uint64_t seen;
       if (drain) { peer_read(c, SIZE_MAX); seen = c.out_got; } else seen = c.out_got + inq(c.prd);
@@ -403,7 +429,7 @@ struct Engine {
       case PREAD: { Conn *c = pick(op); if (c) peer_read(*c, (size_t)op.in(1, 1, 1 << 20)); break; }
       case PAUTO: { Conn *c = pick(op); if (c) { int64_t k = op.in(1, 0, 70000); c->auto_read = k > 65536 ? SIZE_MAX : (size_t)k; } break; }
       case IDLE: idle_left = (int)op.in(0, 1, 40); break;
-      case PWRITE: { Conn *c = pick(op); if (!c || c->pwr < 0 || c->peer_shut) break;
+      case PWRITE: { Conn *c = pick(op); if (!c || c->pwr < 0 || c->peer_shut || c->orderly) break;
         size_t n = pwrite_size(*c, (int)op.in(1, 0, 4), (size_t)op.in(2, 1, 300000));
         if (n > kMaxOne) n = kMaxOne;
         if (used_in + n > kBudgetIn) n = 1 + n % 1500;
@@ -440,11 +466,21 @@ struct Engine {
         else if (R && mismatch(c->isalt, c->in_cons, rb->readableBegin(), R) >= 0) fail(tag(*c) + "receive buffer content (looked at between two loop passes) is not the unconsumed part of the stream");
         else if (!c->bound) { size_t k = std::min((size_t)op.in(1, 0, 3000), R); if (k) { rb->hasRead(k); c->in_cons += k; c->left_unconsumed = k < R; } }   // the user may also consume between callbacks (getReceiveBuffer "for use on the spot")
         break; }
+      case WAITSC: { Conn *c = pick(op); if (c) { wait_conn = c; wait_left = (int)op.in(1, 1, 400); } break; }
       default: break;   // cfg / cons are definitions
     }
   }
 
   void final_check(Conn &c) {
+    if (c.orderly && c.prd >= 0 && !c.peer_shut && !c.peer_closed) {
+      std::string what = tag(c) + "the tbox side disconnected after the send-complete notification had covered all " + std::to_string(c.must_deliver) + " accepted bytes (nothing unread from the peer, the peer only read from then on): ";
+      if (c.peer_rd_err)
+        fail(what + "the peer's read failed with errno " + std::to_string(c.peer_rd_err) + " (" + strerror(c.peer_rd_err) + ") after " + std::to_string(c.out_got) + " bytes instead of delivering everything and ending with EOF (a reset discards what is still in the kernel's send queue)");
+      else if (c.peer_eof && c.out_got != c.must_deliver)
+        fail(what + "the peer read until EOF and got only " + std::to_string(c.out_got) + " bytes");
+      else if (!c.peer_eof)
+        fail(std::string(c.inet ? "TIMING: " : "") + what + "the peer got " + std::to_string(c.out_got) + " bytes and never saw EOF");
+    }
     bool alive = c.tbox_up && !c.tbox_gone && !c.err_seen;
     if (!alive) return;
     if (c.can_read && (c.peer_shut || c.peer_closed) && c.close_reports == 0)
@@ -475,9 +511,11 @@ struct Engine {
     }
   }
 
-  bool last_progress = false; int inet_waited_ms = 0;
+  bool last_progress = false, last_progress_any = false; int inet_waited_ms = 0;
+  Conn *wait_conn = nullptr; int wait_left = 0, wait_waited_ms = 0;
   bool progress_seen_this_pass() const { return last_progress; }
   bool inet_pending(Conn &c) {
+    if (c.orderly) return c.prd >= 0 && !c.peer_shut && !c.peer_closed && !c.peer_eof && !c.peer_rd_err;
     if (!(c.tbox_up && !c.tbox_gone && !c.err_seen && c.close_reports == 0)) return false;
     if (c.peer_shut || c.peer_closed) return true;                       // the close has to be reported
     if (c.prd >= 0 && c.out_got < c.out_acc) return true;
@@ -495,6 +533,14 @@ struct Engine {
     }
     if (phase == 0) {
       if (idle_left > 0) { --idle_left; return true; }
+      if (wait_conn) {     // waitsc: until the send-complete notification has covered everything accepted (bounded)
+        if (wait_conn->acc_at_last_sc != wait_conn->out_acc && !wait_conn->tbox_gone && wait_conn->close_reports == 0 && --wait_left > 0) {
+          if (wait_conn->inet && !last_progress_any && wait_waited_ms < 1000) { struct pollfd pf = {wait_conn->prd, POLLIN, 0}; ::poll(&pf, wait_conn->prd >= 0 ? 1 : 0, 1); wait_waited_ms += 1; }
+          last_progress_any = progress; progress = false;
+          return true;
+        }
+        wait_conn = nullptr;
+      }
       while (pc < s.ops.size() && (s.ops[pc].code == CFG || s.ops[pc].code == CONS)) ++pc;
       if (pc < s.ops.size()) { exec(s.ops[pc++]); return true; }
       phase = 1; before_drain(); progress = true;
@@ -539,6 +585,9 @@ struct Engine {
     info.cls_if(c_disc_in_cb, "tbox_disconnect_in_callback");
     info.cls_if(c_cb_send, "send_from_callback");
     info.cls_if(c_cross, "send_to_other_connection_from_callback");
+    info.cls_if(c_orderly, "local_close_after_send_complete");
+    info.cls_if(c_orderly_unread, "local_close_after_send_complete_with_bytes_unread_by_peer");
+    info.cls_if(c_orderly_unread_inet, "local_close_after_send_complete_with_bytes_unread_by_peer_tcp");
     info.cls_if(c_big, "send_64k_or_more");
     info.cls_if(c_err, "error_callback");
     info.cls_if(conns.size() > 1, "several_connections");
@@ -607,6 +656,7 @@ struct BfdEngine : Engine {
   void ep_disconnect(Conn &, bool in_cb) override {
     if (!bfd) return;
     c_disc = true;
+    note_local_close(*c);
     BufferedFd *p = bfd; bfd = nullptr; c->tbox_gone = true; c->running = false; c->tfd = -1;
     if (in_cb) { p->disable(); loop->runNext([p] { delete p; }, "c06: delete BufferedFd"); }
     else delete p;
@@ -670,10 +720,10 @@ struct ServerEngine : Engine {
   Conn *by_token(const TcpServer::ConnToken &t) { for (size_t i = 0; i < tokens.size(); ++i) if (tokens[i] == t && !tokens[i].isNull()) return conns[i].get(); return nullptr; }
 
   bool setup() override {
-    addr.inet = cfgv(0, 0, 11) == 11;
+    addr.inet = cfgv(0, 0, 11) >= 9;
     backlog = (int)cfgv(1, 1, 4);
     tbuf = (int)cfgv(2, 0, 3); pbuf = (int)cfgv(3, 0, 3);
-    if (addr.inet) tbuf = pbuf = 3;       // tiny TCP windows stall on persist / delayed-ACK timers (hundreds of real milliseconds)
+    if (addr.inet) tbuf = 3;              // TCP: only the peer's buffers (receive window) are shrunk
     srv_thr = (size_t)cfgv(4, 0, 3000); if (cfgv(6, 0, 3) == 0) srv_thr = 0;
     sc_mode = (int)cfgv(5, 0, 1);
     addr.path = scratch_dir() + "/s";
@@ -743,6 +793,7 @@ struct ServerEngine : Engine {
   void ep_disconnect(Conn &c, bool) override {
     if (!srv || c.tbox_gone) return;
     c_disc = true;
+    note_local_close(c);
     bool r = srv->disconnect(tokens[c.idx]);
     if (!r && c.close_reports == 0) fail(tag(c) + "disconnect() of a live connection returned false");
     if (srv->isClientValid(tokens[c.idx])) fail(tag(c) + "isClientValid() still true after disconnect()");
@@ -756,6 +807,7 @@ struct ServerEngine : Engine {
   // DISABLE / ENABLE = stop() (disconnects every client, keeps the listening socket) / start() (accepts what queued up meanwhile)
   void op_disable() override {
     if (!srv || srv->state() != TcpServer::State::kRunning) return;
+    for (auto &c : conns) note_local_close(*c);
     srv->stop(); c_disc = true;
     for (auto &c : conns) if (c->tbox_up && !c->tbox_gone) { c->tbox_gone = true; c->running = false; c->tfd = -1; }
     // stop() empties the connection cabinet, which restarts its id sequence: tokens handed out before are forgotten here, as a
@@ -799,10 +851,10 @@ struct ClientEngine : Engine {
   }
 
   bool setup() override {
-    addr.inet = cfgv(0, 0, 11) == 11;
+    addr.inet = cfgv(0, 0, 11) >= 9;
     reconnect = cfgv(1, 0, 1) == 1;
     tbuf = (int)cfgv(2, 0, 3); pbuf = (int)cfgv(3, 0, 3);
-    if (addr.inet) tbuf = pbuf = 3;
+    if (addr.inet) tbuf = 3;
     cli_thr = (size_t)cfgv(4, 0, 3000); if (cfgv(6, 0, 3) == 0) cli_thr = 0;
     sc_mode = (int)cfgv(5, 0, 1);
     accept_delay = (int)cfgv(7, 0, 6);
@@ -859,6 +911,7 @@ struct ClientEngine : Engine {
   void ep_disconnect(Conn &c, bool) override {
     if (!cli || &c != cur() || c.tbox_gone || c.close_reports) return;
     c_disc = true;
+    note_local_close(c);
     cli->stop();
     if (cli->state() != TcpClient::State::kInited) fail("client: state after stop() is not kInited");
     c.tbox_gone = true; c.running = false; c.tfd = -1;
@@ -921,7 +974,25 @@ rc::Gen<Scenario> make_gen(int kind) {   // 0 bfd, 1 server, 2 client
   auto special = kind == 0 ? rc::gen::weightedOneOf<Op>({{4, mkop(ENABLE, {})}, {2, mkop(DISABLE, {rc::gen::weightedOneOf<int64_t>({{3, rc::gen::just<int64_t>(0)}, {1, range(1, 2)}})})}, {1, mkop(SHRINK, {conn, range(0, 3)})}})
                            : kind == 1 ? rc::gen::weightedOneOf<Op>({{6, mkop(CONNECT, {})}, {1, mkop(DISABLE, {rc::gen::just<int64_t>(0)})}, {2, mkop(ENABLE, {})}})
                                        : mkop(CONNECT, {});
-  return scenarioOf(head, opsOf(rc::gen::weightedOneOf<Op>({{37, common}, {(size_t)(kind == 0 ? 7 : kind == 1 ? 3 : 2), special}})));
+  auto single = rc::gen::map(rc::gen::weightedOneOf<Op>({{37, common}, {(size_t)(kind == 0 ? 7 : kind == 1 ? 3 : 2), special}}), [](Op o) { return std::vector<Op>{std::move(o)}; });
+  // "reply, and close once it has been written": large send to a peer that reads slowly or not at all, local disconnect from inside
+  // the send-complete callback or (after waiting for the notification) from outside, then the peer keeps reading
+  auto big = rc::gen::weightedOneOf<int64_t>({{2, range(5000, 60000)}, {3, range(60001, 400000)}, {2, range(400001, 1 << 20)}});
+  auto slow = rc::gen::weightedOneOf<int64_t>({{1, rc::gen::just<int64_t>(0)}, {3, range(500, 9000)}, {2, range(9001, 70000)}});
+  auto reply_close = rc::gen::apply([](int64_t c, int64_t n, int64_t k, int64_t v, int64_t k2) {
+    auto mk = [](int code, std::vector<int64_t> a) { Op o; o.code = code; o.a = std::move(a); return o; };
+    std::vector<Op> r;
+    r.push_back(mk(PAUTO, {c, k}));
+    if (v == 0) r.push_back(mk(DISC, {c, 2}));                                             // inside the next notification (scheduled first: the kernel may take the whole send at once)
+    r.push_back(mk(SEND, {c, 0, n}));
+    if (v == 0) r.push_back(mk(IDLE, {2}));
+    else { r.push_back(mk(PAUTO, {c, k ? k : 20000})); r.push_back(mk(WAITSC, {c, 399})); r.push_back(mk(DISC, {c, 0})); }   // outside, after it
+    r.push_back(mk(PAUTO, {c, k2}));
+    return r;
+  }, conn, big, slow, range(0, 1), slow);
+  auto chunks = rc::gen::container<std::vector<std::vector<Op>>>(rc::gen::weightedOneOf<std::vector<Op>>({{20, single}, {(size_t)(kind == 0 ? 1 : 2), reply_close}}));
+  auto body = rc::gen::map(chunks, [](std::vector<std::vector<Op>> cs) { std::vector<Op> v; for (auto &c : cs) for (auto &o : c) v.push_back(std::move(o)); return v; });
+  return scenarioOf(head, body);
 }
 #endif
 
